@@ -7,6 +7,13 @@ HERE = os.path.dirname(os.path.dirname(os.path.abspath(__file__)))
 
 # id -> (level category, technique, level text, level note, design ref)
 CHECKS = {
+ "C01": ("exploration",
+  "N-version reference-model monitor: an independent interpreter over a pure value model decides every (expression, document) execution of the real parser/evaluator/printer",
+  "Type-directed random programs of the whole core fragment (depth 1-5) are run through the real lexer, parser, operators and JSON printer (library, "
+  "plus a sampled real-binary cross-check and a -race slice); the ordered result list and error-vs-success must equal the reference interpreter's. "
+  "Recorded deviations are excused only when the result equals the reference with exactly one named quirk switch on. Held on the cases generated.",
+  "The reference model is calibrated to the docs and, where silent, to the pinned behaviour (detects change there); regions it marks out of domain are skipped and counted; read-traversal side effects are not modelled (mismatch there = inconclusive).",
+  "DESIGN.md §5 C01, appendix A"),
  "C17": ("exploration",
   "real-consumer monitor: yq's @sh / -o=shell text is executed by dash and bash (strace execve watch + canary) and parsed by an independent POSIX word parser",
   "Each generated hostile string / document goes through the real encoder (library and binary); the shells must see exactly one word / exactly the "
